@@ -56,7 +56,8 @@ Session.rollback (pass-through without transaction;    `Op.rollback`
   else ROLLBACK and every state expired)
 loading._load_scalar_attributes for an inheriting       `loadScalarAttributes` (decision only; the
   mapper: _optimized_get_statement → FromStatement →      transition system is the single-table
-  `return _load_on_ident(...)` (result not examined)      mapper), `Gen.ExpireCfg.optimizedGetResultChecked`
+  `result = _load_on_ident(...)`; `if state.key and       mapper), `Gen.ExpireCfg.optimizedGetResultChecked`
+  result is None: raise ObjectDeletedError` (eeca727)     (regenerated; true since the fix)
 another connection: UPDATE / DELETE / INSERT + COMMIT   `Op.extSet`, `Op.extDel`, `Op.extIns`
   (SQLite: impossible while the session holds           (skipped while `St.saved` is some)
   uncommitted DML; the harness skips in that case)
